@@ -92,6 +92,12 @@ func (lrw *limitedResponseWriter) WriteHeader(statusCode int) {
 	if lrw.wroteHeader {
 		return
 	}
+	// Interim (1xx) responses carry no body and do not end the exchange:
+	// they go out as they come, the final status is still to follow
+	if statusCode >= 100 && statusCode < 200 && statusCode != http.StatusSwitchingProtocols {
+		lrw.ResponseWriter.WriteHeader(statusCode)
+		return
+	}
 	// Just record the status code, don't write it yet
 	lrw.statusCode = statusCode
 }
